@@ -148,7 +148,7 @@ def run(ctx):
                                         ctx.n(40, 500)):
             pass
         base.flush(ctx, items)
-    for i in range(ctx.n(60, 700)):
+    for i in range(ctx.n(45, 700)):
         wide = i % 3 == 2
         p = sc.gen_wide(rng, p_dup=0.6) if wide else sc.gen_program(rng, p_dup=0.8, p_limits=0.35, allow_ctx=False)
         for k in range(3 if wide else 2):
